@@ -4,6 +4,11 @@ import Blue.Proofs.Orphans
 import Blue.Proofs.Verifier
 import Blue.Proofs.VerifierCrash
 import Blue.Proofs.FileLink
+import Blue.Proofs.FileLinkRun
+import Blue.Proofs.SnapRefs
+import Blue.Proofs.VerifierWitness
+import Blue.Proofs.VerifierKeeps
+import Blue.Proofs.ManiOpenBytes
 import Blue.Proofs.ConstsTieC08
 /-! # Property C08 — no needed file is ever removed; clean-up removes only unreferenced files
 
@@ -22,8 +27,17 @@ The reopen-time clean-up (`cleanup_orphans`) is `Blue.Orphans`.  Both are run ag
 on the dumped directory of every real pass / reopen, against the traced system calls of passes
 run under strace, and against every crash image of those traces (see `harness/src/c08.rs`).
 
-A reader's lazy cursor does not hold its `VersionRef` (D-5), so `live_files_stay` does not cover
-files a cursor opens later — see C07. -/
+Reader snapshots: as repaired (D-5) a cursor keeps its `VersionRef` for its whole life; a held
+reference is a `snapshot` event of `Blue.FileRefs` that is not yet released, so `live_files_stay`
+/ `refcount_run` cover the files of every version a cursor still holds (the cursor side is C07:
+`cursor_files_present`).
+
+What is a THEOREM ABOUT THE MODEL'S ALPHABET rather than about a behaviour (said here once):
+`verifier_never_removes_listed` holds because the model's verifier has no action on `sst/` or
+`MANIFEST` (that the real verifier makes no such call is compared by strace);
+`verifier_keeps_needed_trash` says that the repaired plan's filter removes what it removes (that
+the later checks then FIND the copy is shown on `exR`); `Reach.env` lets the store act between
+pass prefixes, not during one. -/
 namespace Blue.Props.C08
 open Blue.FileRefs
 
@@ -40,9 +54,28 @@ theorem refcount_invariant_preserved {s : St F} (h : Inv s) :
 theorem live_files_stay {s : St F} (h : Inv s) (v : Ver F) (hv : v ∈ s.versions) (hh : v.holders ≥ 1)
     (f : F) (hf : f ∈ v.files) : f ∈ s.sst := held_files_present h v hv hh f hf
 
+/-- the invariant is not vacuous and holds in EVERY state of EVERY run from a freshly opened store:
+    `init files` satisfies it and every event sequence — version installs, snapshots taken and
+    released by cursors (a release only of a reference a cursor holds: the ghost count `out`) —
+    keeps it; so `live_files_stay` applies to every reachable state -/
+theorem refcount_run (files : List F) (evs : List (Ev F)) :
+    Inv (grun (init files, fun _ => 0) evs).1
+    ∧ Ghost (grun (init files, fun _ => 0) evs).1 (grun (init files, fun _ => 0) evs).2 :=
+  ghost_run (inv_init files) (ghost_init files) evs
+
+/-- … hence: in every state of every run, every file of every version that still has a holder is
+    in `sst/` -/
+theorem live_files_stay_in_every_run (files : List F) (evs : List (Ev F)) (v : Ver F)
+    (hv : v ∈ (grun (init files, fun _ => 0) evs).1.versions) (hh : v.holders ≥ 1) (f : F) (hf : f ∈ v.files) :
+    f ∈ (grun (init files, fun _ => 0) evs).1.sst :=
+  held_files_present (refcount_run files evs).1 v hv hh f hf
+
 /-- crash half: at every crash point of every history, both persistence models, the reopen
     succeeds (every manifest-named SST present and whole) and yields exactly the batches
-    `0 … k-1`, `acknowledged ≤ k ≤ appended` -/
+    `0 … k-1`, `acknowledged ≤ k ≤ appended`.  (This is C02's `crash_recover`; its compactions
+    write outputs under FRESH names — `validCompact` excludes an output named like a file of the
+    tree, the "same-setsum re-creation" of the property's quantifier; that case is the
+    `Blue.FileLink` theorems below and the oracle, not this theorem.) -/
 theorem crash_keeps_named_files (h : List Blue.StoreCrash.Client) (n : Nat) :
     Blue.StoreCrash.Ok (Blue.StoreCrash.recoverB (Blue.StoreCrash.run Blue.StoreCrash.fs0 ((Blue.StoreCrash.opsOf h Blue.StoreCrash.kv0).take n)))
         (Blue.StoreCrash.acked ((Blue.StoreCrash.opsOf h Blue.StoreCrash.kv0).take n))
@@ -87,6 +120,16 @@ theorem pinned_output_stays (s : Blue.FileLink.St G) (x : G) (h : Blue.FileLink.
     Blue.FileLink.Inv s' ∧ s'.refs x = s.refs x + 1 - k ∧ x ∈ s'.sst :=
   Blue.FileLink.pinned_output_stays s x h k hk
 
+/-- as repaired, ANY run after the link: other compactions link their outputs, versions take
+    references to files that are referenced already, holders of any files let go — as long as `x`
+    is released at most as often as it had holders before the link, every referenced file is in
+    `sst/` and `x` is still referenced and in `sst/` -/
+theorem pinned_output_stays_any_run (s : Blue.FileLink.St G) (x : G) (h : Blue.FileLink.Inv s) (evs : List (Blue.FileLink.Ev G))
+    (hg : RefGuard true (Blue.FileLink.step true s (.link x)) evs) (hk : unrefs x evs ≤ s.refs x) :
+    let s' := Blue.FileLink.run true (Blue.FileLink.step true s (.link x)) evs
+    Blue.FileLink.Inv s' ∧ s'.refs x ≥ 1 ∧ x ∈ s'.sst :=
+  Blue.FileLink.pinned_output_stays_any_run s x h evs hg hk
+
 /-- **as the code is** (counterexample to "no needed file is ever removed"): `x` is in `sst/` with
     one reference that belongs to a reader's snapshot; a compaction links an output named `x`, the
     reader lets go, the new version takes its reference — `x` is referenced, listed by the manifest
@@ -96,13 +139,26 @@ theorem unpinned_output_lost (s : Blue.FileLink.St G) (x : G) (hx : x ∈ s.sst)
     s'.refs x = 1 ∧ x ∉ s'.sst ∧ x ∈ s'.trash ∧ ¬ Blue.FileLink.Inv s' :=
   Blue.FileLink.unpinned_output_lost s x hx hn
 
-/-- non-vacuity of the hypotheses: one file, one reference -/
-example : (1 : Nat) ∈ ({ refs := fun _ => 1, sst := [1], trash := [] } : Blue.FileLink.St Nat).sst ∧
-    Blue.FileLink.Inv ({ refs := fun x => if x = 1 then 1 else 0, sst := [1], trash := [] } : Blue.FileLink.St Nat) :=
-  ⟨List.mem_cons_self, fun x hx => by
-    by_cases h : x = 1
-    · subst h; exact List.mem_cons_self
-    · simp [h] at hx⟩
+/-- non-vacuity, ONE state for both theorems: file 1 in `sst/` with one reference (a reader's),
+    file 2 with one.  It satisfies `Inv` and the hypotheses of `unpinned_output_lost`; under the
+    repaired link the run "link 1; the reader lets go of 1; a holder lets go of 2; the new version
+    references 1" is guarded, releases 1 once, and leaves 1 referenced in `sst/` and 2 in `trash/` -/
+def sEx : Blue.FileLink.St Nat := { refs := fun x => if x = 1 ∨ x = 2 then 1 else 0, sst := [1, 2], trash := [] }
+
+example : (1 : Nat) ∈ sEx.sst ∧ sEx.refs 1 = 1 ∧ Blue.FileLink.Inv sEx :=
+  ⟨List.mem_cons_self, rfl, fun x hx => by
+    by_cases h1 : x = 1
+    · subst h1; exact List.mem_cons_self
+    · by_cases h2 : x = 2
+      · subst h2; exact List.mem_cons_of_mem _ List.mem_cons_self
+      · simp [sEx, h1, h2] at hx⟩
+
+example :
+    let evs : List (Blue.FileLink.Ev Nat) := [.unref 1, .unref 2, .ref 1]
+    let s' := Blue.FileLink.run true (Blue.FileLink.step true sEx (.link 1)) evs
+    RefGuard true (Blue.FileLink.step true sEx (.link 1)) evs ∧ unrefs 1 evs = 1
+    ∧ s'.refs 1 = 2 ∧ s'.sst = [1] ∧ s'.trash = [2] := by
+  refine ⟨⟨trivial, trivial, ?_, trivial⟩, ?_, ?_, ?_, ?_⟩ <;> decide
 
 end FileLink
 
@@ -112,11 +168,14 @@ open Blue.Verifier Blue.Mani
 variable {A : Type}
 
 /-- **The verifier unlinks only logged trash.**  In every directory the verifier can be in — after
-    any interleaving of pass prefixes (a crash after any durable action, then a restart from what
-    is on disk) with arbitrary steps of the store that leave `verify/` alone — every unlink a pass
+    any sequence of pass prefixes (a crash after any durable action, then a restart from what is on
+    disk) and, BETWEEN them (not during a prefix: a verifier running concurrently with a store is
+    not modelled), arbitrary changes outside `verify/` (`Reach.env`) — every unlink a pass
     makes in `trash/` is of a name that is, at that moment, logged in `verify/` under the number of
     a fragment whose plan names it and which passed the check (`verify_one`) against the
-    accumulator of the moment its intent was logged. -/
+    accumulator of the moment its intent was logged.  (`es` is the edit list recorded with the
+    intent in the ghost field `done`, `later` is existential: the statement ties the unlink to the
+    LOG, not to what `mani/` holds at that moment.) -/
 theorem verifier_unlinks_only_logged_trash (C : Checker A) (d : Dir A) (h : Reach C d) (i : Nat) (x : Name)
     (hx : (pass C d).1[i]? = some (Act.unlinkTrash x)) :
     ∃ n es a names later, (run d ((pass C d).1.take i)).vM = some n ∧ (n, es, a) ∈ (run d ((pass C d).1.take i)).done
@@ -137,11 +196,36 @@ theorem plan_names_recorded_removals (asWas : Bool) (later : List Name) (es : Li
     holds one copy for both removals, which the checks of the fragments that add it back and remove
     it again read.  Whenever a pass logs an intent for fragment `n`, no name in it is the trash
     entry of a file that a fragment numbered above `n` or `MANIFEST` removes again (`laterRm`): the
-    copy is left to the last removal. -/
+    copy is left to the last removal.  MODEL FACT: the repaired `plan` filters its names by the very
+    list `laterRm` this statement quantifies over, so this says "the filter's output contains
+    nothing the filter removes"; that the later checks then succeed on the copy is shown on `exR`
+    (`verifier_removed_recreated_removed`); the semantic statement for a last removal by `MANIFEST`
+    is `verifier_keeps_manifest_removed` below. -/
 theorem verifier_keeps_needed_trash (C : Checker A) (hC : C.asWas = false) (d : Dir A) (i n : Nat) (es : List Edit)
     (names : List Name) (o : A) (h : (pass C d).1[i]? = some (Act.intent n es names o)) (r : Name)
     (hr : r ∈ laterRm (run d ((pass C d).1.take i)) n) : trashSst r ∉ names :=
   pass_keeps_needed_trash C hC d i n es names o h r hr
+
+/-- the SEMANTIC form, for the last removal being `MANIFEST`'s own: in a directory where no trash
+    name of a file `MANIFEST` removes is logged in `verify/` (a fresh directory: nothing is), the
+    trash copy of every file that `MANIFEST` removes — whatever fragments removed and re-created it
+    before — is in `trash/` after every prefix of the pass (repaired plan, any checker).  From
+    `Legal` alone: an entry is unlinked only while logged, logged only by an intent, and an intent
+    names nothing `MANIFEST` removes. -/
+theorem verifier_keeps_manifest_removed (C : Checker A) (hC : C.asWas = false) (d : Dir A)
+    (hv : ∀ x, x ∈ d.vstrs → ¬ Protected d x) (k : Nat) (r : Name) (hr : r ∈ d.live.flatMap removedBy)
+    (ht : trashSst r ∈ d.trash) : trashSst r ∈ (run d ((pass C d).1.take k)).trash :=
+  pass_keeps_manifest_removed C hC d hv k r hr ht
+
+/-- non-vacuity: `dM` — `x` removed by fragment 1, re-created by fragment 2, removed again by
+    `MANIFEST`, one copy in `trash/`: the repaired pass does 7 actions and the copy stays; as the
+    code was it is unlinked with fragment 1 and fragment 2's check fails -/
+example (k : Nat) : trashSst [120] ∈ (run dM ((pass chainChecker dM).1.take k)).trash :=
+  verifier_keeps_manifest_removed chainChecker rfl dM (fun x hx => by rw [dM_hyps.1] at hx; cases hx) k [120]
+    dM_hyps.2.1 dM_hyps.2.2
+example : (pass chainChecker dM).2 = .ok ∧ (pass chainChecker dM).1.length = 7
+    ∧ (final chainChecker dM).trash = [[120, 46, 115, 115, 116]] ∧ (final chainChecker dM).frags.map (·.1) = [3]
+    ∧ (pass chainCheckerAsWas dM).2 = .corrupt ∧ (final chainCheckerAsWas dM).trash = [] := dM_kept
 
 /-- **as the code was** (counterexample, D-28): `x` removed by fragment 1, added again by fragment 2,
     removed again by fragment 3, one copy in `trash/`: the pass gives the copy to fragment 1, stops
@@ -170,7 +254,9 @@ def listedOf (live : List Edit) : List Name := (Blue.ManiCrash.replay maniAlgebr
 
 /-- **The verifier never removes a listed file**: no prefix of any pass (hence no step, no crash
     state) changes `sst/` or `MANIFEST`; every file the manifest lists that was in `sst/` still is;
-    nothing appears in `trash/` or `mani/`. -/
+    nothing appears in `trash/` or `mani/`.  BY CONSTRUCTION OF THE ALPHABET: `Act` has no action on
+    `sst/` or `MANIFEST` (the third conjunct holds for any predicate in place of `listedOf`); that
+    the real verifier issues no such call is what the strace comparison checks. -/
 theorem verifier_never_removes_listed (C : Checker A) (d : Dir A) (k : Nat) :
     (run d ((pass C d).1.take k)).sst = d.sst ∧ (run d ((pass C d).1.take k)).live = d.live ∧
     (∀ x, x ∈ listedOf (run d ((pass C d).1.take k)).live → x ∈ d.sst → x ∈ (run d ((pass C d).1.take k)).sst) ∧
@@ -213,6 +299,26 @@ example : (pass chainChecker exD).1.length = 4 ∧ (final chainChecker exD).tras
 example : Sorted exD ∧ NoneEmpty exD ∧ Reach chainChecker exD :=
   ⟨by unfold Sorted; decide, fun _ => rfl, Reach.fresh _ rfl rfl rfl⟩
 
+/-- non-vacuity of `reopen_after_verifier` — all hypotheses at once (`exD` and `exR` are not
+    chained): `dW` has three chained fragments + MANIFEST, two files in `trash/`; its pass has 9
+    durable actions and empties `trash/`.  The theorem is applied to the restart after a cut at
+    action 3 (first trash entry gone, its intent still logged) followed by a cut at action 2 of the
+    next pass. -/
+example : Sorted dW ∧ NoneEmpty dW ∧ chainOk (fragLists dW) = true ∧ Reach chainChecker dW := dW_hyps
+example : (pass chainChecker dW).2 = .ok ∧ (pass chainChecker dW).1.length = 9
+    ∧ (final chainChecker dW).trash = [] ∧ (final chainChecker dW).frags.map (·.1) = [3]
+    ∧ (final chainChecker dW).sst = [[99]] := dW_pass
+example (sst trash : List Name) :=
+  reopen_after_verifier chainChecker dW _ dW_hyps.1 dW_hyps.2.1 dW_hyps.2.2.1
+    (Restarts.crash _ 2 (Restarts.crash dW 3 Restarts.start)) sst trash
+example : Blue.Orphans.listed (fragLists dW) = [[99]]
+    ∧ Blue.Orphans.listed (fragLists (run dW ((pass chainChecker dW).1.take 3))) = [[99]] := by decide
+
+/-- a reachable directory with a pending intent (non-vacuity of `Reach` beyond `fresh`), and: a
+    checker that never passes makes every pass empty — the verifier theorems are SAFETY statements -/
+example : Reach chainChecker dCut ∧ dCut.vM = some 1 := ⟨dCut_reach, dCut_state.2.1⟩
+example : (pass neverChecker exD).1 = [] ∧ (pass neverChecker dW).1 = [] := never_does_nothing
+
 end Verifier
 
 /-! ## orphan clean-up on open -/
@@ -220,8 +326,10 @@ section Orphans
 open Blue.Orphans Blue.Mani
 
 /-- **`cleanup_orphans` keeps every listed file**: on a chained manifest directory (what
-    `Manifest::verify` checks; it holds after every history of edits, rollovers, crashes and reopens —
-    `chain_holds` below — and for what the verifier leaves of it, `reopen_after_verifier`), the set
+    `Manifest::verify` checks; it holds after one crash of a crash-free history and a completed
+    reopen — `chain_holds` —, after any number of incarnations, crashes during a reopen included —
+    `chain_holds_any_incarnations` —, and for what the verifier leaves of it,
+    `reopen_after_verifier`), the set
     the scan collects holds no name the manifest state lists — whether the file was removed and
     added by one edit, removed by one edit and re-added by a later one, or re-added in a later
     fragment — so nothing listed is renamed to `trash/`. -/
@@ -229,14 +337,31 @@ theorem cleanup_orphans_keeps_listed (sst trash : List Name) (frags : List (List
     (∀ x, x ∈ listed frags → x ∉ scan frags) ∧ (∀ x, x ∈ moved sst trash frags → x ∉ listed frags) :=
   ⟨scan_clear_of_listed frags hc, moved_not_listed sst trash frags hc⟩
 
-/-- the hypothesis holds: after a crash at any system call of any history of manifest edits,
-    rollovers and reopens, under either persistence model, followed by the reopen's rollover, the
-    fragments are chained -/
+/-- the hypothesis holds: after ONE crash at any system call of any crash-free history of manifest
+    edits and rollovers from the empty directory, under either persistence model, followed by a
+    COMPLETED reopen (its rollover), the fragments are chained (C13 `chain_after_crash_and_reopen`) -/
 theorem chain_holds (h : List (Blue.ManiCrash.Client Edit)) (n : Nat) :
     let fs := Blue.ManiCrash.run emptyFs ((Blue.ManiCrash.opsOf maniAlgebra h []).take n)
     chainOk (fragments (Blue.ManiCrash.run (Blue.ManiCrash.crashA fs) (Blue.ManiCrash.reopenOps maniAlgebra (Blue.ManiCrash.crashA fs)))) = true
     ∧ chainOk (fragments (Blue.ManiCrash.run (Blue.ManiCrash.crashB fs) (Blue.ManiCrash.reopenOps maniAlgebra (Blue.ManiCrash.crashB fs)))) = true :=
   chain_after_crash_and_reopen h n
+
+/-- … and after ANY number of incarnations (C13 `chain_incarnations`): start from a directory of the
+    class a crash leaves (`Cls`; the crash image of a first history is one, `cls_first`), let any
+    sequence of incarnations follow — each: open with the repaired rollover, any history, a crash
+    at any system call, of the rollover too, under either model —; after the next completed reopen,
+    and through the crash-free history after it, the fragments are chained -/
+theorem chain_holds_any_incarnations (g0 : Blue.ManiCrash.Fs Edit) (h0 : Cls g0) (is : List (Blue.ManiCrash.Inc Edit))
+    (h : List (Blue.ManiCrash.Client Edit)) :
+    let g := Blue.ManiCrash.runIncs maniAlgebra g0 is
+    chainOk (fragments (Blue.ManiCrash.run g (Blue.ManiCrash.reopenOps maniAlgebra g))) = true
+    ∧ chainOk (fragments (Blue.ManiCrash.run g
+        (Blue.ManiCrash.reopenOps maniAlgebra g ++ Blue.ManiCrash.opsOf maniAlgebra h g.mani.durable))) = true :=
+  ⟨chain_after_incarnations g0 h0 is, chain_after_incarnations_and_history g0 h0 is h⟩
+
+theorem first_crash_image_in_class (h : List (Blue.ManiCrash.Client Edit)) (n : Nat) (b : Bool) :
+    Cls (Blue.ManiCrash.crash b (Blue.ManiCrash.run emptyFs ((Blue.ManiCrash.opsOf maniAlgebra h []).take n))) :=
+  cls_first h n b
 
 /-- non-vacuity, and what the removal of the added names is for: `x` is removed by an edit of the
     first fragment and added again by an edit of the second; the scan lets it be, a scan that only
@@ -251,10 +376,13 @@ end Blue.Props.C08
 
 #print axioms Blue.Props.C08.refcount_invariant_preserved
 #print axioms Blue.Props.C08.live_files_stay
+#print axioms Blue.Props.C08.refcount_run
+#print axioms Blue.Props.C08.live_files_stay_in_every_run
 #print axioms Blue.Props.C08.crash_keeps_named_files
 #print axioms Blue.Props.C08.verifier_unlinks_only_logged_trash
 #print axioms Blue.Props.C08.plan_names_recorded_removals
 #print axioms Blue.Props.C08.verifier_keeps_needed_trash
+#print axioms Blue.Props.C08.verifier_keeps_manifest_removed
 #print axioms Blue.Props.C08.verifier_removed_recreated_removed
 #print axioms Blue.Props.C08.verifier_acts_legal
 #print axioms Blue.Props.C08.verifier_never_removes_listed
@@ -263,6 +391,9 @@ end Blue.Props.C08
 #print axioms Blue.Props.C08.reopen_after_verifier
 #print axioms Blue.Props.C08.cleanup_orphans_keeps_listed
 #print axioms Blue.Props.C08.chain_holds
+#print axioms Blue.Props.C08.chain_holds_any_incarnations
+#print axioms Blue.Props.C08.first_crash_image_in_class
 #print axioms Blue.Props.C08.linked_output_invariant
 #print axioms Blue.Props.C08.pinned_output_stays
+#print axioms Blue.Props.C08.pinned_output_stays_any_run
 #print axioms Blue.Props.C08.unpinned_output_lost
